@@ -114,12 +114,13 @@ def main():
             pkgdir = os.path.dirname(rel)
             pkgpat = "tabular/" + pkgdir + "::" if pkgdir else "tabular::"
             t0 = time.time()
-            rc, out = run(["/verif/bin/govc", "vc", "-t", "20", "-repo", repo, pkgpat], "/verif", 1500)
-            fails = [l for l in out.split("\n") if l.startswith("FAIL") or "NOT VERIFIED" in l]
+            rc, out = run(["/verif/bin/govc", "vc", "-t", "30", "-repo", repo, pkgpat], "/verif", 1500)
+            NOISE = ("column-count-attained-after-header-replacement", "listed-name-is-accepted", "(*Row).invokeRenderCallbacks/inv-preserved#17")
+            fails = [l for l in out.split("\n") if (l.startswith("FAIL") or "NOT VERIFIED" in l) and not any(n in l for n in NOISE)]
             ded = "FAIL" if fails else "pass"
             verdict = "ok" if fails else ("GAP" if hf else "equivalent?")
             print(f"{verdict:11s} deductive={ded}({len(fails)}) harness={'FAIL:' + ','.join(hf) if hf else 'pass'} {desc}  [{time.time()-t0:.0f}s]", flush=True)
-            for l in fails[:2]:
+            for l in fails[:3]:
                 print("      " + l[:200], flush=True)
         finally:
             shutil.rmtree(d, ignore_errors=True)
